@@ -1,7 +1,8 @@
 (* C16 — figures are embedded byte-exactly, one per page, at the configured size.
    Model: Figure.v (ports of _binary_to_hex, _get_png_dimensions, _get_jpeg_dimensions, _get_dimension,
    _encode_single_figure) and Document.figure_pages.
-     C16_hex        (all byte strings) the hexadecimal payload decodes to the file's exact bytes;
+     C16_hex        (all byte strings) the hexadecimal payload decodes to the file's exact bytes
+                    (C16_hex_injective: so two different files never share a payload);
      C16_png        (all widths/heights < 2^32, any chunk header and tail) the PNG parser returns the
                     dimensions written big-endian at offsets 16..24 after the signature;
      C16_jpeg_sof / C16_jpeg_skip   (all segment shapes) the JPEG scanner returns the height/width of a
@@ -21,6 +22,15 @@ Local Open Scope N_scope.
 Theorem C16_hex : forall bs, Forall (fun b => b < 256) bs -> unhex (hex_of_bytes bs) = Some bs.
 Proof. exact unhex_hex. Qed.
 Print Assumptions C16_hex.
+
+(* hence different files never share a payload: the encoding loses nothing *)
+Theorem C16_hex_injective : forall a b,
+  Forall (fun x => x < 256) a -> Forall (fun x => x < 256) b -> hex_of_bytes a = hex_of_bytes b -> a = b.
+Proof.
+  intros a b Ha Hb E. pose proof (unhex_hex a Ha) as H1. pose proof (unhex_hex b Hb) as H2.
+  rewrite E in H1. rewrite H1 in H2. injection H2 as H. exact H.
+Qed.
+Print Assumptions C16_hex_injective.
 
 Theorem C16_png : forall (pre rest : list N) (w h : N),
   length pre = 8%nat -> (0 < length rest)%nat -> w < 4294967296 -> h < 4294967296 ->
